@@ -64,6 +64,11 @@ CHECKS = {
     text="Component-shaped read layouts (paired reads with long inserts, N skips, tiny coverage caps, trios with homozygous sites) are phased in-process; the reads given to the solver come from the guarded trace hook (cross-checked with --output-read-list), connectivity is recomputed by naive relabelling and every PS/HP id must be the leftmost position of the component + 1, with the pedigree merge rule applied from the input genotypes.",
     note="Trusted: the trace hook dumps solver *inputs* faithfully (cross-checked against --output-read-list); trusted-genotype mode only.",
     ref="DESIGN.md section 4, C03"),
+ "C04": dict(
+    technique="property-based testing (Hypothesis): decorated full-variety VCFs + consistent BAMs through `whatshap phase`; oracle = htslib-parsed record-by-record diff of input and output",
+    text="A pipeline case is decorated with extra samples, arbitrary INFO/FORMAT/FILTER content, missing and partial genotypes, multi-ALT / symbolic / ALT-less / duplicate-position records and pre-existing phasing, then phased in-process with drawn --sample/--chromosome/--tag/--only-snvs; both files are parsed with htslib and every field outside the phase encoding must be identical, non-selected calls untouched, newly phased calls restricted to heterozygous supported records, header definitions preserved.",
+    note="Trusted: htslib parsing of both files; complete headers; diploid genotypes; Integer PS.",
+    ref="DESIGN.md section 4, C04"),
 }
 
 NOT_YET = {}
